@@ -585,7 +585,7 @@ def scenarios(rng, tier):
         for i in range(0, len(days), 400):
             yield {'kind': 'civil', 'list': days[i:i + 400]}
     yield from targeted(tier)
-    n = 7000 if tier == 'quick' else 200000
+    n = 5000 if tier == 'quick' else 200000
     for i in range(n):
         yield gen_spike(rng, tier) if i % 8 == 7 else gen_hook(rng, tier) if i % 8 == 3 else gen_circuit(rng, tier)
 
@@ -887,6 +887,13 @@ def run_impl(scn):
         vtime.uninstall()
     if sim.init_error is not None:
         info['error'] = sim.init_error
+    # the service blocks of the circuit and the one each client holds (`_get_cron`)
+    import edzed.blocklib.cron as _cronmod
+    services = sorted(blk.name for blk in sim.circuit.getblocks(_cronmod.Cron))
+    held = []
+    for blk in sim.circuit.getblocks():
+        if hasattr(blk, '_c07_id'):
+            held.append([blk._c07_id, blk._cron.name, bool(blk._cron._utc)])
 
     # ---- protocol lines
     lines = [f'cron reset {LAMBDA_US} {BOUND_US}']
@@ -966,6 +973,7 @@ def run_impl(scn):
     return {'lines': lines, 'trace': trace, 'events': events, 'tags': tags,
             'nontrivial': changes > 0 or njump > 0 or nrec > 0,
             'error': repr(info['error']) if info['error'] is not None else None, 'completed': info['done'],
+            'services': services, 'held': sorted(held),
             'reads': world.reads}
 
 
@@ -1071,6 +1079,13 @@ def oracle(scn, res):
                                     + (f" (last clock jump arrived at {from_us(last_jump).isoformat()})"
                                        if last_jump is not None else ''),
                             'sig': {'after_jump': last_jump is not None}})
+    # one service block per time-zone kind, shared by all clients of that kind
+    want = sorted({'_cron_utc' if s['utc'] else '_cron_local' for s in scn['blocks']})
+    if res.get('services') != want or any(
+            name != ('_cron_utc' if scn['blocks'][i]['utc'] else '_cron_local') or utc != scn['blocks'][i]['utc']
+            for i, name, utc in res.get('held', [])):
+        out.append({'clause': 'one_service_per_kind',
+                    'what': f"service blocks {res.get('services')} (expected {want}); clients hold {res.get('held')}"})
     if res.get('error') is not None or not res.get('completed'):
         out.append({'clause': 'jump_never_terminates' if last_jump is not None else 'simulation_keeps_running',
                     'what': f"the simulation terminated: Circuit.error = {res.get('error')}"
